@@ -431,6 +431,9 @@ func generate(rng *rand.Rand, family string, nsteps int) scriptT {
 	case "scen":
 		genScen(w, &sc, nsteps)
 		return sc
+	case "full":
+		genFull(w, &sc)
+		return sc
 	}
 	// mix / fault: a seed tree, then a weighted stream
 	for i := 0; i < 3; i++ {
@@ -1052,4 +1055,44 @@ func genScen(w *world, sc *scriptT, nsteps int) {
 			add("proc", "A")
 		}
 	}
+}
+
+// genFull: one read that fills the reader's 64 KiB buffer to the last byte (or stops 16/32 bytes short of it): mkdir
+// records of chosen sizes (16 + the name padded to a multiple of 16) whose total, plus the 16-byte sentinel record the
+// harness appends, is exactly 65536 — then ordinary traffic in a second read.
+func genFull(w *world, sc *scriptT) {
+	add := func(f ...string) { sc.steps = append(sc.steps, step{f}) }
+	add("fs", "mkdir", "d")
+	add("add", hx(w.spell("d")), "31", "0")
+	target := 65536 - 16 - []int{0, 0, 0, 16, 32}[w.rng.Intn(5)]
+	total, i := 0, 0
+	for total < target {
+		left := target - total
+		sz := 32
+		switch {
+		case left == 48 || left == 32 || left == 64:
+			sz = left
+		case left < 96:
+			sz = 32
+		case w.rng.Intn(6) == 0:
+			sz = 48 + 16*w.rng.Intn(3)
+		}
+		// a name of length L gives a record of 16 + roundup(L+1, 16) bytes
+		L := sz - 16 - 1 - w.rng.Intn(15)
+		if L < 6 {
+			L = sz - 16 - 1
+		}
+		name := fmt.Sprintf("%05d", i)
+		for len(name) < L {
+			name += "x"
+		}
+		add("fs", "mkdir", "d/"+name[:L])
+		total += sz
+		i++
+	}
+	add("proc", "A")
+	add("fs", "create", "d/after")
+	add("fs", "write", "d/after")
+	add("proc", "A")
+	add("list")
 }
